@@ -486,7 +486,7 @@ result_t DateTimeDataType::writeSymbols(size_t offset, size_t length, istringstr
   size_t start = 0, count = length;
   bool remainder = count == REMAIN_LEN && hasFlag(ADJ);
   int incr = 1;
-  unsigned int value = 0, last = 0, lastLast = 0;
+  unsigned int value = 0, last = 0, lastLast = 0, hour = 0;
   string token;
 
   if (hasFlag(REV)) {  // reverted binary representation (most significant byte first)
@@ -601,8 +601,10 @@ result_t DateTimeDataType::writeSymbols(size_t offset, size_t length, istringstr
         if (result != RESULT_OK) {
           return result;  // invalid time part
         }
-        if ((i == (m_hasDate ? 2 : 0) && value > 24)
-        || (i > (m_hasDate ? 2 : 0) && (last == 24 && value > 0) )) {
+        if (i == (m_hasDate ? 2 : 0)) {
+          hour = value;
+        }
+        if (hour > 24 || (i > (m_hasDate ? 2 : 0) && hour == 24 && value > 0)) {
           return RESULT_ERR_OUT_OF_RANGE;  // invalid time part
         }
         if (hasFlag(SPE)) {  // minutes since midnight
